@@ -645,7 +645,9 @@ impl Report {
         let dir = format!("{}/evidence", verif_dir());
         let _ = std::fs::create_dir_all(&dir);
         if !self.strict {
-            std::fs::write(format!("{}/{}.json", dir, self.id), serde_json::to_string_pretty(&ev).unwrap())
+            // VERIF_EVIDENCE_NAME: a second run of the same check (another build profile) writes beside the first
+            let name = std::env::var("VERIF_EVIDENCE_NAME").unwrap_or_else(|_| self.id.to_string());
+            std::fs::write(format!("{}/{}.json", dir, name), serde_json::to_string_pretty(&ev).unwrap())
                 .expect("write evidence");
         }
         for (k, v) in self.stats.labels.iter().filter(|(k, _)| k.starts_with("FAIL:")) {
